@@ -1,3 +1,10 @@
-/-! # C06 — (stub: property theorems go here; see docs/BUILDING.md) -/
+import PtVerif.Model.Loaders
+import PtVerif.Generated.MassTables
+import PtVerif.Generated.Density
+/-! # C06 — placeholder while the pipeline is brought up -/
 namespace PtVerif.C06
+open PtLoad
+
+theorem placeholder : parseUncertainty "[289]".toList = some (.nominal ⟨289, 0⟩) := by decide
+
 end PtVerif.C06
